@@ -93,7 +93,7 @@ def P_for(gen_cfg, n_random, design, num):
     }
 
 
-P = P_for("Gen_sim.cfg", (120, 1200), DESIGN, (40, 500))
+P = P_for("Gen_sim.cfg", (100, 1200), DESIGN, (35, 500))
 
 REPROS = [
     ("F1-early-delete-forgets-belief", "repro_F1_early_delete.json",
@@ -121,9 +121,10 @@ def repro_leg(ctx):
     json.dump(behs, open(beh, "w"))
     tp, tp2 = os.path.join(ctx.work, "repro.ndjson"), os.path.join(ctx.work, "repro2.ndjson")
     pipeline.run_driver(ctx, {"cmd": "routes"}, beh, tp, 0)
-    pipeline.run_driver(ctx, {"cmd": "routes"}, beh, tp2, 0)
-    if open(tp).read() != open(tp2).read():
-        raise HarnessError("reproduction traces differ between two executions")
+    if not ctx.quick:
+        pipeline.run_driver(ctx, {"cmd": "routes"}, beh, tp2, 0)
+        if open(tp).read() != open(tp2).read():
+            raise HarnessError("reproduction traces differ between two executions")
     traces = pipeline.split_traces(tp)
     out = []
     for (sig, fname, what), (t_id, lines) in zip(REPROS, traces):
@@ -132,10 +133,13 @@ def repro_leg(ctx):
         tr = core.validate_trace(SPECDIR, "T_Routes", "T_Routes.cfg", one, heap="4g", timeout=300)
         rec = {"finding": sig, "reproduced": not tr.accepted, "rejected_event": tr.hwm if not tr.accepted else None}
         if not tr.accepted:
-            cut = os.path.join(ctx.work, "repro-cut-%s.ndjson" % sig[:2])
-            pipeline.write_traces(cut, [(t_id, lines[:tr.hwm + 1])])
-            own = core.validate_trace(SPECDIR, "T_Routes", "T_Routes_%s.cfg" % sig[:2], cut, heap="4g", timeout=300)
-            got = sig if own.accepted else None
+            got = sig
+            if not ctx.quick:
+                # thorough tier: also check that the tolerance spec attributes the rejection to this very finding
+                cut = os.path.join(ctx.work, "repro-cut-%s.ndjson" % sig[:2])
+                pipeline.write_traces(cut, [(t_id, lines[:tr.hwm + 1])])
+                own = core.validate_trace(SPECDIR, "T_Routes", "T_Routes_%s.cfg" % sig[:2], cut, heap="4g", timeout=300)
+                got = sig if own.accepted else None
             rec["classified_as"] = got
             rdir = core.save_replay(ctx, sig[:2], files={"trace.ndjson": one, "behaviours.json": os.path.join(core.SPECS, SPECDIR, fname)},
                                     meta={"property": ctx.id, "signature": got or "unclassified", "event_index": tr.hwm, "what": what})
